@@ -115,7 +115,11 @@ def decode(p: SymPath) -> Effect:
             if e.is_repo("CircuitBreaker._clear_failures"):
                 clears += 1
             elif e.is_repo("CircuitBreaker._note_failure"):
-                notes.append(tuple(val_name(a) if not (a == ("param", "klass")) else "klass" for a in e.args))
+                from .windows import arg_of, param_roles
+
+                nroles = param_roles(next(t.func for t in e.targets if t.func is not None))
+                vals = [arg_of(e, nroles.get("klass")), arg_of(e, nroles.get("now"))]
+                notes.append(tuple("klass" if a == ("param", "klass") else val_name(a) for a in vals))
             elif e.callback() == "clock":
                 pass
             else:
